@@ -215,16 +215,7 @@ func TestC09MTU(t *testing.T) {
 }
 
 func waitFor(timeout time.Duration, cond func() bool) bool {
-	deadline := time.Now().Add(timeout)
-	for {
-		if cond() {
-			return true
-		}
-		if time.Now().After(deadline) {
-			return false
-		}
-		time.Sleep(time.Millisecond)
-	}
+	return ev.Patient(timeout, cond)
 }
 
 // TestC09MuxChannels: several channels of one multiplexer have different header sizes; each must
